@@ -9,6 +9,7 @@ import (
 
 	dtpb "github.com/google/fhir/go/proto/google/fhir/proto/r4/core/datatypes_go_proto"
 	bcrpb "github.com/google/fhir/go/proto/google/fhir/proto/r4/core/resources/bundle_and_contained_resource_go_proto"
+	ppbc20 "github.com/google/fhir/go/proto/google/fhir/proto/r4/core/resources/patient_go_proto"
 	"github.com/verily-src/fhirpath-go/fhirpath/verifharness/core"
 	"github.com/verily-src/fhirpath-go/fhirpath/verifharness/fx"
 	"github.com/verily-src/fhirpath-go/fhirpath/verifharness/gen"
@@ -214,7 +215,13 @@ func c20BundleOrder2(env *core.Env, seed uint64) {
 			continue
 		}
 		md := types[rng.Intn(len(types))]
+		if i == 1 {
+			md = gen.ResourceTypeByName("Bundle") // a nested bundle (empty, or with an entry of its own below) is one resource of the outer one
+		}
 		r := gen.NewMessage(md).Interface().(fhir.Resource)
+		if nb, ok := r.(*bcrpb.Bundle); ok && rng.Intn(2) == 0 {
+			nb.Entry = []*bcrpb.Bundle_Entry{{Resource: &bcrpb.ContainedResource{OneofResource: &bcrpb.ContainedResource_Patient{Patient: &ppbc20.Patient{}}}}, {FullUrl: &dtpb.Uri{Value: "urn:y"}}}
+		}
 		cr := (&bcrpb.ContainedResource{}).ProtoReflect()
 		cr.Set(gen.ContainedFieldFor(md), protoreflect.ValueOfMessage(r.ProtoReflect()))
 		b.Entry = append(b.Entry, &bcrpb.Bundle_Entry{Resource: cr.Interface().(*bcrpb.ContainedResource)})
